@@ -360,7 +360,74 @@ func runThOps(s *thSetup, ops []string) string {
 
 // ---- C18: concurrent histories checked for linearizability by the model
 
+// genC18Frozen: a pool frozen at t+1 shares one of which is a well-formed share of another signer (added with
+// TrustedAdd); then several goroutines ask for the threshold signature at the same time. Every call must fail
+// with the invalid-input error (no sequential order explains a returned signature), and whatever is returned as a
+// signature must verify under the group key.
+func genC18Frozen(c *Ctx, nHist int) {
+	for it := 0; it < nHist; it++ {
+		nt := [][2]int{{3, 1}, {4, 2}, {5, 2}}[it%3]
+		s := newThSetup(c, nt[0], nt[1])
+		insp, err := crypto.NewBLSThresholdSignatureInspector(s.group, s.pks, s.t, s.msg, s.tag)
+		if err != nil {
+			panic(err)
+		}
+		var clock int64
+		var toks []string
+		run := func(tok string) string {
+			inv := atomic.AddInt64(&clock, 1)
+			ret := thOp(insp, tok)
+			res := atomic.AddInt64(&clock, 1)
+			toks = append(toks, fmt.Sprintf("%d,%d,%s,%s", inv, res, tok, strings.Replace(ret, "sig:", "sig~", 1)))
+			return ret
+		}
+		// t valid shares, then the share of signer t+1 under index t
+		for i := 0; i < s.t; i++ {
+			run(fmt.Sprintf("T:%d:%s", i, hx(s.shares[i])))
+		}
+		run(fmt.Sprintf("T:%d:%s", s.t, hx(s.shares[(s.t+1)%s.n])))
+		g := 3 + c.intn(4)
+		rets := make([][]string, g)
+		stamps := make([][][2]int64, g)
+		var wg sync.WaitGroup
+		start := make(chan struct{})
+		for k := 0; k < g; k++ {
+			wg.Add(1)
+			go func(k int) {
+				defer wg.Done()
+				<-start
+				for r := 0; r < 2; r++ {
+					inv := atomic.AddInt64(&clock, 1)
+					ret := thOp(insp, "S")
+					res := atomic.AddInt64(&clock, 1)
+					rets[k] = append(rets[k], ret)
+					stamps[k] = append(stamps[k], [2]int64{inv, res})
+				}
+			}(k)
+		}
+		close(start)
+		wg.Wait()
+		verdict := "ok"
+		for k := range rets {
+			for r, ret := range rets[k] {
+				toks = append(toks, fmt.Sprintf("%d,%d,S,%s", stamps[k][r][0], stamps[k][r][1], strings.Replace(ret, "sig:", "sig~", 1)))
+				if strings.HasPrefix(ret, "sig:") {
+					sg := unhexOr(strings.TrimPrefix(ret, "sig:"))
+					if ok, _ := insp.VerifyThresholdSignature(sg); !ok {
+						verdict = "returned a threshold signature that fails verification under the group key"
+					} else {
+						verdict = "returned a signature from a pool with an invalid share"
+					}
+				}
+			}
+		}
+		c.Case("frozen-bad-pool/direct", "expect ok #", verdict)
+		c.Case("frozen-bad-pool/history", "th.lin "+s.envLine()+" "+strings.Join(toks, " "), "linearizable")
+	}
+}
+
 func genC18(c *Ctx) {
+	genC18Frozen(c, map[bool]int{false: 12, true: 300}[c.thorough()])
 	nHist := 120
 	if c.thorough() {
 		nHist = 4000
